@@ -309,8 +309,10 @@ PROPS = {
               dict(driver="crash", args=["--nops", "30", "--threads", "2", "--every", "2", "--torn"],
                    quick=4, thorough=60)]),
     "C02": dict(
-        design=[(DUR, ["MC_RainDur_small.cfg"], ["MC_RainDur_small.cfg", "MC_RainDur_big.cfg"]), REOPEN],
-        switches=[("Bug_ReplaySkipsOlderLogs", REO, REOQ, None),
+        design=[(DUR, ["MC_RainDur_small.cfg", "MC_RainDur_comp.cfg"],
+                 ["MC_RainDur_small.cfg", "MC_RainDur_big.cfg", "MC_RainDur_comp.cfg"]), REOPEN],
+        switches=[("Bug_InputsDeletedBeforeManifest", DUR, "MC_RainDur_comp.cfg", "Durable"),
+                  ("Bug_ReplaySkipsOlderLogs", REO, REOQ, None),
                   ("Bug_CounterNotRestored", REO, REOQ, "NumbersFresh"),
                   ("Bug_AckBeforeWal", DUR, "MC_RainDur_small.cfg", "Durable"),
                   ("Bug_WalDeletedEarly", DUR, "MC_RainDur_small.cfg", None),
